@@ -209,3 +209,18 @@ Proof.
   assert (Hw : (0 <= width a)%Z) by (rewrite <- Sw; auto using c01_sumZ_nonneg).
   rewrite c01_coords_dask_fn, c01_coords_numpy_fn by assumption. reflexivity.
 Qed.
+
+(* entry (i, j) of the lon/lat arrays is the inverse projection of entry (i, j) of the coordinate arrays
+   (used by the correspondence to consult the PROJ table at sampled entries only) *)
+Lemma c01_nth_map_map {A B} (f : A -> B) (g : list (list A)) i j d :
+  nth j (nth i (map (map f) g) []) (f d) = f (nth j (nth i g []) d).
+Proof.
+  change (@nil B) with (map f []). rewrite map_nth. apply map_nth.
+Qed.
+Lemma c01_lonlats_entry {T} (OP : ops T) (invT : T * T -> T * T) a rows cols i j d :
+  nth j (nth i (c01_lonlats OP invT a rows cols) []) (invT d) = invT (nth j (nth i (c01_coords_numpy OP a rows cols) []) d).
+Proof. apply c01_nth_map_map. Qed.
+Lemma c01_lonlats_dask_entry {T} (OP : ops T) (invT : T * T -> T * T) a rch cch rows cols i j d :
+  nth j (nth i (c01_lonlats_dask OP invT a rch cch rows cols) []) (invT d) =
+  invT (nth j (nth i (c01_coords_dask OP a rch cch rows cols) []) d).
+Proof. apply c01_nth_map_map. Qed.
